@@ -54,6 +54,15 @@ fn js_unquote(k: &str) -> String {
     out
 }
 
+/// the keys of an interface with their `?` marks (`after?`)
+fn raw_object_keys_with_marks(types_ts: &str, name: &str) -> Option<Vec<String>> {
+    let head = format!("export interface {} {{", name);
+    let cleaned = without_comments(types_ts);
+    let start = cleaned.find(&head)? + head.len();
+    let end = cleaned[start..].find("\n}")? + start;
+    Some(cleaned[start..end].lines().filter_map(|l| l.split_once(':').map(|(k, _)| k.trim().to_string())).filter(|k| !k.starts_with('[')).collect())
+}
+
 /// the keys as printed (quotes kept)
 fn raw_object_keys(types_ts: &str, name: &str, zod: bool) -> Option<Vec<String>> {
     Some(object_entries(types_ts, name, zod)?.into_iter().map(|(k, _)| k).collect())
@@ -680,6 +689,8 @@ fn main() {
             ("type_", "", Some("type_")),
             ("match_", "", Some("match_")),
             ("ref__", "", Some("ref__")),
+            // serde's rename rules change ASCII letters only
+            ("gr\u{f6}\u{df}e", "", Some("gr\u{f6}\u{df}e")), ("ma\u{df}_zahl", "", Some("ma\u{df}_zahl")), ("\u{e9}clair_count", "", Some("\u{e9}clair_count")),
             ("empty_rename", "#[serde(rename = \"\")]", Some("")),
             ("unicode_escape", "#[serde(rename = \"caf\\u{e9}\")]", Some("caf\u{e9}")),
             ("raw_rename", "#[serde(rename = r#\"say \"hi\"\"#)]", Some("say \"hi\"")),
@@ -688,7 +699,8 @@ fn main() {
         ];
         let conventions = ["", "lowercase", "UPPERCASE", "PascalCase", "camelCase", "snake_case", "SCREAMING_SNAKE_CASE", "kebab-case", "SCREAMING-KEBAB-CASE"];
         let derives = ["#[derive(Serialize, Deserialize)]", "#[derive(Debug, Clone, serde::Serialize, serde::Deserialize)]", "#[derive(serde::Serialize)]\n#[derive(Debug)]", "#[derive(Deserialize, Clone)]"];
-        let variants = ["FastPath", "Slow", "HTTPServer", "X86_64", "A"];
+        // (a variant that starts with a non-ASCII letter is no input: serde_derive slices `variant[..1]` for camelCase and does not compile it)
+        let variants = ["FastPath", "Slow", "HTTPServer", "X86_64", "A", "Stra\u{df}eNord"];
         let mut src = format!("{}fn make() -> u32 {{ 0 }}\n", HDR);
         let mut structs: Vec<(String, Vec<(String, bool)>)> = Vec::new();  // name -> expected keys (key, quoted?)
         let mut enums: Vec<(String, Vec<String>)> = Vec::new();
@@ -891,6 +903,7 @@ fn main() {
             ("e-if-let-err", ""), ("e-cond", ""), ("e-scrutinee", ""), ("e-and", ""), ("e-assign", ""), ("e-while-cond", ""), ("e-let-else", ""), ("e-tuple", ""), ("e-not", ""), ("e-return", ""), ("e-in-method", ""), ("e-in-inline-module", ""),
             ("s-before", ""), ("s-inner-typed", ""), ("s-after-block", ""), ("s-if-let-bound", ""), ("s-after-if-let", ""), ("s-for-bound", ""), ("s-closure-bound", ""), ("s-rebound-untyped", ""), ("s-match-bound", ""),
             ("d-rest-first", ""), ("d-rest-last", ""), ("d-rest-tail", ""), ("w-shadowed", ""), ("w-shadowed-param", ""), ("w-rebound-in-block", ""),
+            ("m-to-owned-untyped", ""), ("m-to-owned-if-let", ""), ("m-to-owned-for", ""), ("m-to-owned-typed", ""), ("m-to-string-untyped", ""), ("m-as-ref-untyped", ""),
             ("v-unit-variant", ""), ("v-struct-variant", ""), ("v-tuple-variant", ""), ("v-qualified-variant", ""), ("v-assoc-const", ""), ("v-ctor-call", ""), ("v-const", ""), ("v-tuple-literal", ""), ("v-unit-struct-path", ""),
             ("v-let-struct-variant", ""), ("v-let-tuple-variant", ""), ("v-let-vec-new", ""), ("v-let-map-new", ""), ("v-let-string-new", ""), ("v-let-fn-call", ""),
             ("u-vec-infer", ""), ("u-map-array", ""), ("u-tuple-array", ""), ("u-vec-array", ""),
@@ -947,6 +960,7 @@ fn main() {
             pub fn values(app: &tauri::AppHandle) { app.emit(\"v-unit-variant\", JobState::Running).ok(); app.emit(\"v-struct-variant\", JobState::Failed { code: 1 }).ok(); app.emit(\"v-tuple-variant\", JobState::Done(3)).ok(); app.emit(\"v-qualified-variant\", crate::JobState::Running).ok(); app.emit(\"v-assoc-const\", JobState::IDLE).ok(); app.emit(\"v-ctor-call\", JobState::fresh()).ok(); app.emit(\"v-const\", MAX_RETRIES).ok(); app.emit(\"v-tuple-literal\", (1u32, \"x\")).ok(); app.emit(\"v-unit-struct-path\", crate::Beat).ok();\n\
                 let f = JobState::Failed { code: 2 }; app.emit(\"v-let-struct-variant\", f).ok(); let d = JobState::Done(1); app.emit(\"v-let-tuple-variant\", d).ok(); let v = Vec::new(); app.emit(\"v-let-vec-new\", v).ok(); let m = std::collections::HashMap::new(); app.emit(\"v-let-map-new\", m).ok(); let s = String::new(); app.emit(\"v-let-string-new\", s).ok(); let q = crate::inner::load(); app.emit(\"v-let-fn-call\", q).ok(); }\n\
             #[derive(Serialize, Deserialize, Clone)]\npub struct RawSample { pub raw: u32 }\n#[derive(Serialize, Deserialize, Clone)]\npub struct SampleView { pub shown: String, pub unit: SampleUnit }\n#[derive(Serialize, Deserialize, Clone)]\npub enum SampleUnit { Metric }\nimpl SampleView { pub fn from(_r: RawSample) -> Self { todo!() } }\n\
+            pub fn methods_on_untyped(app: &tauri::AppHandle, name: &str, last: Option<String>, all: Vec<String>) { let label = format!(\"job {}\", 1); app.emit(\"m-to-owned-untyped\", label.to_owned()).ok(); if let Some(previous) = last { app.emit(\"m-to-owned-if-let\", previous.to_owned()).ok(); } for entry in all { app.emit(\"m-to-owned-for\", entry.to_owned()).ok(); } app.emit(\"m-to-owned-typed\", name.to_owned()).ok(); app.emit(\"m-to-string-untyped\", label.to_string()).ok(); app.emit(\"m-as-ref-untyped\", label.as_ref()).ok(); }\n\
             pub fn shadowing(app: &tauri::AppHandle, reading: RawSample) { let sample = RawSample { raw: 1 }; let sample = SampleView::from(sample); app.emit(\"w-shadowed\", &sample).ok(); let reading: SampleView = SampleView::from(reading); app.emit(\"w-shadowed-param\", reading).ok(); let value: u32 = 1; { let value: String = String::new(); app.emit(\"w-rebound-in-block\", value).ok(); } let _ = value; }\n\
             pub fn used_results(app: &tauri::AppHandle, flag: bool, v: Option<u32>) -> Result<(), tauri::Error> { if let Err(e) = app.emit(\"e-if-let-err\", 1u32) { let _ = e; } if app.emit(\"e-cond\", 1u32).is_err() { } match app.emit(\"e-scrutinee\", 1u32) { Ok(_) => {}, Err(_) => {} } let _ok = flag && app.emit(\"e-and\", 1u32).is_ok(); let mut r; r = app.emit(\"e-assign\", 1u32); let _ = r; while app.emit(\"e-while-cond\", 1u32).is_err() { break; } let Some(_x) = v else { app.emit(\"e-let-else\", 1u32).ok(); return Ok(()); }; let _t = (app.emit(\"e-tuple\", 1u32), 2); let _n = !app.emit(\"e-not\", 1u32).is_ok(); return app.emit(\"e-return\", 1u32); }\n\
             pub struct Notifier;\nimpl Notifier { pub fn tell(&self, app: &tauri::AppHandle) { app.emit(\"e-in-method\", 1u32).ok(); } }\npub mod nested_emitters { use tauri::Emitter; pub fn tell(app: &tauri::AppHandle) { app.emit(\"e-in-inline-module\", 1u32).ok(); } }\n\
@@ -1006,6 +1020,7 @@ fn main() {
                     ("e-if-let-err", "number"), ("e-cond", "number"), ("e-scrutinee", "number"), ("e-and", "number"), ("e-assign", "number"), ("e-while-cond", "number"), ("e-let-else", "number"), ("e-tuple", "number"), ("e-not", "number"), ("e-return", "number"), ("e-in-method", "number"), ("e-in-inline-module", "number"),
                     ("s-before", "types.Player"), ("s-inner-typed", "types.ScanReport"), ("s-after-block", "types.Player"), ("s-if-let-bound", "unknown || number"), ("s-after-if-let", "types.Player"), ("s-for-bound", "unknown || number"), ("s-closure-bound", "unknown || number"), ("s-rebound-untyped", "unknown || number"), ("s-match-bound", "unknown || number"),
                     ("w-shadowed", "types.SampleView"), ("w-shadowed-param", "types.SampleView"), ("w-rebound-in-block", "string"),
+                    ("m-to-owned-untyped", "unknown || string"), ("m-to-owned-if-let", "unknown || string"), ("m-to-owned-for", "unknown || string"), ("m-to-owned-typed", "unknown || string"), ("m-to-string-untyped", "unknown || string"), ("m-as-ref-untyped", "unknown"),
                     ("d-rest-first", "unknown || types.Player"), ("d-rest-last", "unknown || types.ScanReport"), ("d-rest-tail", "unknown || number"),
                     ("u-vec-infer", "unknown"), ("u-map-array", "unknown || Record<string, number[]>"), ("u-tuple-array", "unknown || [types.Player, number[]]"), ("u-vec-array", "unknown || number[][]"),
                     ("s-path-struct", "types.Player"), ("s-path-struct-2", "types.Player"), ("s-bare-struct", "types.Player"),
@@ -1071,6 +1086,16 @@ fn main() {
             ("one-file-rotated", vec![("lib.rs".to_string(), format!("{}{}{}", hdr, items[4..].join(""), items[..4].join("")))]),
             ("one-file-interleaved", vec![("lib.rs".to_string(), format!("{}{}", hdr, [11usize, 8, 0, 6, 9, 1, 2, 7, 10, 3, 4, 5].iter().map(|i| items[*i].clone()).collect::<Vec<_>>().join("")))]),
             ("comments-inside-attributes", vec![("lib.rs".to_string(), format!("{}{}{}{}", hdr, items[..9].join(""), commented_row, items[10..].join("")))]),
+            // checkouts inside the sources: every directory holds a `.git` FILE (a submodule / worktree checkout), and a plain file called
+            // `target` lies next to them; neither says anything about their sibling files
+            ("git-files-and-a-target-file", {
+                let mut v: Vec<(String, String)> = Vec::new();
+                for (i, item) in items.iter().enumerate() { v.push((format!("vendor_{}/part_{}.rs", i % 3, i), format!("{}{}", hdr, item))); }
+                for d in 0..3 { v.push((format!("vendor_{}/.git", d), format!("gitdir: ../../.git/modules/vendor_{}\n", d))); v.push((format!("vendor_{}/.gitignore", d), "/target\n".to_string())); }
+                v.push(("target".to_string(), "not a build directory\n".to_string()));
+                v.push((".git".to_string(), "gitdir: ../.git/worktrees/src\n".to_string()));
+                v
+            }),
             ("with-noise", vec![("lib.rs".to_string(), format!("{}// comment\n\n\n{}", hdr, items.iter().map(|s| format!("/* noise */\n// TODO: drop this once the @generated client lands (DO NOT EDIT? no: hand written) #[tauri::command]\n{}\n\npub fn unrelated_{}() {{}}\n", s, s.len())).collect::<Vec<_>>().join("")))]),
         ];
         for mode in ["none", "zod"] {
@@ -1391,6 +1416,8 @@ fn main() {
             #[derive(Serialize, Deserialize, Clone)]\n#[serde(into = \"u64\", try_from = \"u64\")]\npub struct LocalStamp {{ pub secs: u64, pub zone: LocalZone, pub parts: Vec<LocalParts> }}\n#[derive(Serialize, Deserialize, Clone)]\npub struct LocalZone {{ pub offset: i32 }}\n#[derive(Serialize, Deserialize, Clone)]\npub struct LocalParts {{ pub hi: u32, pub lo: LocalPartsLow }}\n#[derive(Serialize, Deserialize, Clone)]\npub struct LocalPartsLow {{ pub lo: u32 }}\n\
             #[derive(Serialize, Deserialize, Clone)]\npub struct Visit {{ pub big: i128, pub bigs: Vec<Option<i128>>, pub blob: Vec<u8>, pub at: LocalStamp, pub earlier: Vec<Option<LocalStamp>>, #[serde(with = \"stamp_fmt\")] pub due: Timestamp, #[serde(serialize_with = \"ser_ids\", deserialize_with = \"de_ids\")] pub ids: Vec<Uuid>, #[serde(default, with = \"opt_fmt\")] pub paid: Option<Timestamp> }}\n\
             #[tauri::command]\npub fn visits(first: LocalStamp, zone: LocalZone) -> Vec<Visit> {{ vec![] }}\n\
+            #[derive(Serialize, Deserialize, Clone)]\npub struct Cursor {{ pub pos: u32 }}\n#[tauri::command]\npub fn page(after: Option<Cursor>, before: Option<Vec<Cursor>>, limit: u32, from: Cursor) -> u32 {{ 0 }}\n\
+            #[tauri::command]\npub fn deep(shallow: Vec<Vec<Vec<Timestamp>>>, levels: Vec<Vec<Vec<Vec<Vec<Vec<Vec<Vec<Vec<Vec<Vec<Vec<Vec<Vec<Vec<Vec<Vec<Vec<Vec<Vec<Vec<Vec<Vec<Vec<Vec<Vec<Vec<Vec<Vec<Vec<Vec<Vec<Vec<Vec<Vec<Vec<Vec<Vec<Vec<Vec<Timestamp>>>>>>>>>>>>>>>>>>>>>>>>>>>>>>>>>>>>>>>>) -> u32 {{ 0 }}\n\
             #[tauri::command]\npub fn stamps(s: Stamped, first: ext::Stamp, on_stamp: Channel<ext::Stamp>, on_many: Channel<Vec<Option<ext::Stamp>>>) -> Result<Vec<ext::Stamp>, String> {{ Ok(vec![]) }}\n", HDR);
         let dir = root.join("mapped/src");
         write_files(&dir, &[("lib.rs".to_string(), src)]);
@@ -1401,7 +1428,7 @@ fn main() {
             cfg.project_path = dir.to_string_lossy().to_string();
             cfg.output_path = out.to_string_lossy().to_string();
             cfg.validation_library = mode.to_string();
-            cfg.type_mappings = Some([("Uuid".to_string(), "string".to_string()), ("Timestamp".to_string(), "number".to_string()), ("ext::Stamp".to_string(), "number".to_string()), ("ext::Span".to_string(), "number".to_string()), ("LocalStamp".to_string(), "number".to_string()), ("i128".to_string(), "string".to_string()), ("Vec<u8>".to_string(), "string".to_string())].into_iter().collect());
+            cfg.type_mappings = Some([("Uuid".to_string(), "string".to_string()), ("Timestamp".to_string(), "number".to_string()), ("ext::Stamp".to_string(), "number".to_string()), ("ext::Span".to_string(), "number".to_string()), ("LocalStamp".to_string(), "number".to_string()), ("Option<Cursor>".to_string(), "string".to_string()), ("i128".to_string(), "string".to_string()), ("Vec<u8>".to_string(), "string".to_string())].into_iter().collect());
             let res: Result<BTreeMap<String, String>, String> = generate_from_config(&cfg).map_err(|e| format!("generate_from_config returned Err: {}", e)).and_then(|_| {
                 let mut m = BTreeMap::new();
                 for e in fs::read_dir(&out).map_err(|e| e.to_string())?.flatten() { if e.path().is_file() { m.insert(e.file_name().to_string_lossy().to_string(), fs::read_to_string(e.path()).unwrap_or_default()); } }
@@ -1444,6 +1471,39 @@ fn main() {
                     if !with.contains(n) { return Err(format!("`{}` is declared without a mapping table but not with one, although the table does not name it", n)); }
                 }
                 Ok(format!("{} names", plain.len()))
+            });
+            // C04: a key may be left out iff the Rust parameter is an Option, also when the whole Option type is a mapping key
+            rep.case("omittable_keys_are_the_option_parameters", &format!("project=mapped mode={} fn page(after: Option<Cursor>, before: Option<Vec<Cursor>>, limit: u32, from: Cursor) with the mapping key Option<Cursor>", mode), &|| {
+                let files = res.as_ref().map_err(|e| e.clone())?;
+                let t = files.get("types.ts").ok_or("no types.ts")?;
+                for (k, opt) in [("after", true), ("before", true), ("limit", false), ("from", false)] {
+                    let got = if mode == "zod" {
+                        let sch = zod_field(t, "PageParams", k).ok_or(format!("UNPARSED: PageParamsSchema has no key {}", k))?;
+                        sch.ends_with(".optional()") || sch.ends_with(".nullish()")
+                    } else {
+                        let raw = raw_object_keys_with_marks(t, "PageParams").ok_or("UNPARSED: PageParams not found")?;
+                        raw.iter().any(|r| r == &format!("{}?", k))
+                    };
+                    if got != opt { return Err(format!("key `{}` of PageParams {} be left out, the Rust parameter is {}an Option", k, if got { "may" } else { "may not" }, if opt { "" } else { "not " })); }
+                }
+                Ok("ok".into())
+            });
+            // C18 / C05: the translation is compositional at any depth - forty levels of Vec around a mapped type are forty array levels around its target
+            rep.case("mapped_type_is_mapped_at_any_depth", &format!("project=mapped mode={} fn deep(shallow: Vec<Vec<Vec<Timestamp>>>, levels: Vec^40<Timestamp>)", mode), &|| {
+                let files = res.as_ref().map_err(|e| e.clone())?;
+                let t = files.get("types.ts").ok_or("no types.ts")?;
+                let entries = object_entries(t, "DeepParams", mode == "zod").ok_or("UNPARSED: DeepParams not found")?;
+                let get = |k: &str| entries.iter().find(|(key, _)| key.trim_end_matches('?') == k).map(|(_, v)| v.trim_end_matches(',').trim_end_matches(';').to_string()).ok_or(format!("UNPARSED: DeepParams has no key {}", k));
+                let (shallow, levels) = (get("shallow")?, get("levels")?);
+                let want = if mode == "zod" {
+                    let inner = shallow.strip_prefix("z.array(z.array(z.array(").and_then(|r| r.strip_suffix(")))")).ok_or(format!("UNPARSED: shallow is `{}`", shallow))?;
+                    format!("{}{}{}", "z.array(".repeat(40), inner, ")".repeat(40))
+                } else {
+                    let inner = shallow.strip_suffix("[][][]").ok_or(format!("UNPARSED: shallow is `{}`", shallow))?;
+                    format!("{}{}", inner, "[]".repeat(40))
+                };
+                if levels != want { return Err(format!("forty levels deep the mapped type is rendered `{}`, three levels deep `{}`", levels.chars().take(120).collect::<String>(), shallow)); }
+                Ok(shallow)
             });
             // C07: what only the fields of a mapped project type mention is reachable from nothing in the bindings
             rep.case("types_behind_a_mapped_type_are_not_declared", &format!("project=mapped mode={} LocalStamp (mapped to number) {{ parts: Vec<LocalParts> }}, LocalParts {{ lo: LocalPartsLow }}", mode), &|| {
